@@ -326,7 +326,8 @@ C01_HELPERS = """func H2(x int) (_ Iter[int]) {
 """
 
 
-def build_c01_corpus(ctx, corp, n_exh, n_sampled, weights=None, max_nodes=12, sample_seed_off=0):
+def build_c01_corpus(ctx, corp, n_exh, n_sampled, weights=None, max_nodes=12, sample_seed_off=0, transform=None):
+    transform = transform or (lambda body, rng, ctr: body)
     rng = random.Random(ctx.seed * 7919 + sample_seed_off)
     pid = 0
     # bounded-exhaustive part
@@ -341,16 +342,18 @@ def build_c01_corpus(ctx, corp, n_exh, n_sampled, weights=None, max_nodes=12, sa
         exh_sel = exh
     for lst in exh_sel:
         ctr = gen.Ctr()
-        body = gen.concretize(lst, ctr, [])
+        body = transform(gen.concretize(lst, ctr, []), rng, ctr)
         p = gen.Program("e%04d" % pid, body, named_result=(pid % 2 == 0), family="exh")
         pid += 1
         corp.add(p)
     for body in gen.sampled(rng, n_sampled, max_nodes, weights):
+        body = transform(body, rng, gen.Ctr())
         p = gen.Program("s%04d" % pid, body, named_result=(pid % 2 == 0), family="smp")
         pid += 1
         corp.add(p)
     for name, body in directed_c01():
         helpers = C01_HELPERS if "H2(" in repr(body) else ""
+        body = transform(body, rng, gen.Ctr())
         p = gen.Program("d_%s" % name, body, helpers=helpers, named_result=False, family="dir", tags={"directed:" + name})
         corp.add(p)
     return {"exhaustive_total": len(exh), "exhaustive_used": len(exh_sel), "sampled": n_sampled, "directed": len(directed_c01())}
@@ -432,3 +435,22 @@ def plan_C01(ctx):
 
 
 CLAIMED["C01"] = plan_C01
+
+
+def plan_C02(ctx):
+    K = ctx.q(6, 12)
+
+    def build(corp):
+        return build_c01_corpus(ctx, corp, ctx.q(150, 1500), ctx.q(200, 1800), sample_seed_off=2, transform=gen.effectify)
+
+    extra = {
+        "bounds": {"advances_K": K, "extra_advances_after_exhaustion": 2, "loop_bound_n": "[-1,3]",
+                   "observables": "CREATED marker between the generator call and the first advance, ADV_BEGIN/ADV_END around every advance, rt.Eff(id, e) around yielded expressions, conditions, tags, initialisers; effect statements before/after yields",
+                   "outside": "program shapes not generated; more than K advances; consumers that touch generator state between advances (C03/C06/C14)"},
+        "explanation": "flat equality of the marker+effect+yield log of source-under-coroutine-semantics and compiled code; because the engine is deterministic and the log contains the advance markers, equality of the full log implies equality at every truncation point k <= K",
+    }
+    return corpus_check(ctx, "c02", build, K, 2, extra, [REF_ASSUMPTION, PROGRAM_DIM],
+                        floors={"drivers_holds": ctx.q(100, 1000)})
+
+
+CLAIMED["C02"] = plan_C02
